@@ -1,5 +1,5 @@
 #!/usr/bin/env python3
-"""Writes the prompts for a round of property-breaking changes (one per property, four agents of five).
+"""Writes the prompts for a round of property-breaking changes (one per property, SEED_GROUP properties per agent, default five).
 usage: gen_seed_prompts.py <worktree root> <output root> <template prompt (an earlier round's prompt file)>
 Each prompt carries the property texts and, per property, one line for every change already in /verif/seeded
 (so that a new change is different in kind). Nothing of the checker is given to the agents."""
@@ -9,8 +9,9 @@ props = [json.loads(l) for l in open('/verif/properties.jsonl')]
 head = open(tmpl).read().split('THE PROPERTIES')[0]
 old_root = re.search(r'(/tmp/\w+)/C01', head).group(1)
 old_out = re.search(r'(/tmp/\w+out)/<id>', head).group(1)
-for g in range(4):
-    ps = props[g*5:(g+1)*5]
+G = int(os.environ.get('SEED_GROUP', '5'))  # properties per agent
+for g in range((len(props) + G - 1) // G):
+    ps = props[g*G:(g+1)*G]
     h = head.replace(old_out, out).replace(old_root, root)
     h = re.sub(r'One git worktree per property exists: .*? \(all at the same commit\)\.',
                'One git worktree per property exists: ' + ', '.join('%s/%s' % (root, p['id']) for p in ps) + ' (all at the same commit).', h, flags=re.S)
